@@ -214,3 +214,76 @@ def decode_reply(client, op, data):
     svc = getattr(client.service, op["name"])
     args = {}
     return normal(svc(__inject={"reply": data}))
+
+
+# ---------------------------------------------------------------- the generated family, replayable by name
+
+import random
+
+
+def iface_of(ident):
+    """ident = '<tag>/<seed>/<i>[/enc]' -> the interface (deterministic)."""
+    rng = random.Random("iface:" + ident)
+    return IF.gen_iface(rng, encoded=ident.endswith("/enc"))
+
+
+def family(ctx, n, tag, encoded_every=5):
+    for i in range(n):
+        ident = "%s/%s/%d" % (tag, ctx.seed, i)
+        if encoded_every and i % encoded_every == encoded_every - 1:
+            ident += "/enc"
+        yield ident, iface_of(ident)
+
+
+def rendering_of(rident):
+    if rident == "canonical":
+        return IF.canonical_rendering()
+    return IF.random_rendering(random.Random("render:" + rident))
+
+
+def args_of(ident, I, op, case):
+    return gen_args(random.Random("args:%s:%s:%d" % (ident, op["name"], case)), I, op)
+
+
+def outvals_of(ident, I, op, case):
+    return IF.gen_outvals(random.Random("out:%s:%s:%d" % (ident, op["name"], case)), I, op)
+
+
+def shape_stats(ctx, I, prefix="iface"):
+    ctx.dist["%s:namespaces=%d" % (prefix, len(I["namespaces"]))] += 1
+    ctx.dist["%s:types=%d" % (prefix, len(I["types"]))] += 1
+    for t in I["types"].values():
+        ctx.dist["%s:type.kind=%s" % (prefix, t["particle"]["kind"])] += 1
+        if t["base"] is not None:
+            ctx.dist["%s:type.extension" % prefix] += 1
+            if t["base"][0] != [k for k, v in I["types"].items() if v is t][0][0]:
+                ctx.dist["%s:type.extension-across-namespaces" % prefix] += 1
+        if t["attrs"]:
+            ctx.dist["%s:type.attributes" % prefix] += 1
+    for op in I["ops"]:
+        ctx.dist["%s:op.style=%s" % (prefix, op["style"])] += 1
+
+
+def value_stats(ctx, v, prefix="value"):
+    if v is None:
+        ctx.dist[prefix + ":None"] += 1
+    elif isinstance(v, list):
+        ctx.dist[prefix + ":list.len=%s" % min(len(v), 3)] += 1
+        for x in v:
+            value_stats(ctx, x, prefix)
+    elif isinstance(v, dict):
+        if "__array__" in v:
+            ctx.dist[prefix + ":array.len=%s" % min(len(v["__array__"]), 3)] += 1
+            for x in v["__array__"]:
+                value_stats(ctx, x, prefix)
+            return
+        ctx.dist[prefix + (":derived" if "__type__" in v else ":object")] += 1
+        for k, x in v.items():
+            if k == "__type__":
+                continue
+            if k.startswith("_"):
+                ctx.dist[prefix + ":attribute"] += 1
+            else:
+                value_stats(ctx, x, prefix)
+    else:
+        ctx.dist[prefix + ":leaf." + type(v).__name__] += 1
